@@ -332,7 +332,9 @@ class PercentFormatString:
                         non_literals.append(pair.key)
                 keys_left = cs_map.keys() - seen_keys
                 if keys_left and not non_literals:
-                    yield f"No value specified for keys {', '.join(keys_left)}"
+                    # iterate over cs_map so the keys appear in template order
+                    ordered_keys = [key for key in cs_map if key in keys_left]
+                    yield f"No value specified for keys {', '.join(ordered_keys)}"
         else:
             yield f"% string requires a mapping, not {args}"
 
